@@ -344,6 +344,7 @@ def synthetic(tier):
 
 
 def run(tier, seed, only=None):
+    pool.set_recycle(8)
     rep = Report(
         PID, tier, seed, "exploration",
         rule="A1: cards x strategy tuples x flags x angle options, each with an explicit-state exploration of the call/cache automaton (states = ids seen x traced functions x parameter point; "
